@@ -337,6 +337,7 @@ pub fn replay_base(out: &mut Out, v: &Vocab, e: &str, b: &Beh, pols: &[Policy], 
             let o = checked_call(out, e, &r.text, ph, Some(&exp), claim_of(b), nontrivial, &ctx);
             outs.push((ph.clone(), o));
         }
+        if outs.is_empty() { continue; }
         if out.stats.samples.len() < 6 && b.kinds.len() >= 3 && (out.stats.items % 97 == 0) {
             out.stats.samples.push(json!({"e": e, "toks": b.kinds, "verdict": b.verdict, "input": r.text, "outcome": outs[0].1.show()}));
         }
